@@ -239,9 +239,9 @@ def r4_3(ctx: Ctx) -> None:
     ctx.floor("R4.3", "mutable default arguments", m, 5)
 
 
-def r4_4(ctx: Ctx) -> None:
+def r4_4(ctx: Ctx, rid: str = "R4.4") -> None:
     ix = ctx.ix
-    ctx.rule("R4.4", "each episode gets its own scenario dict (schedulers return a fresh object)")
+    ctx.rule(rid, "each episode gets its own scenario dict (schedulers return a fresh object)")
     base = ix.cls("EpisodeScheduler")
     n = 0
     for f in ix.overrides(base, "__call__"):
@@ -256,14 +256,14 @@ def r4_4(ctx: Ctx) -> None:
             fresh = isinstance(v, ast.Call) and (unparse(v.func) in ("copy.deepcopy", "deepcopy", "yaml.safe_load", "yaml.load"))
             if not fresh:
                 bad.append(f"L{r.lineno}: returns {unparse(v)[:50]}")
-        ctx.record("R4.4", ctx.key(f, "returns a fresh config"), f.loc(), bool(rets) and not bad,
+        ctx.record(rid, ctx.key(f, "returns a fresh config"), f.loc(), bool(rets) and not bad,
                    "every return is copy.deepcopy(...) or freshly parsed YAML" if not bad else
                    "the scheduler hands out an object it keeps: PrimaiteGame.from_config mutates its argument, so a later episode sees the mutation", bad)
-    ctx.floor("R4.4", "episode schedulers", n, 2)
+    ctx.floor(rid, "episode schedulers", n, 2)
     fc = ix.method("PrimaiteGame.from_config")
     muts = [f"L{nd.lineno}: {unparse(nd)[:60]}" for nd in ast.walk(fc.node) if isinstance(nd, ast.Assign) and any(
         isinstance(t, ast.Subscript) and "cfg" in unparse(t.value).lower() or isinstance(t, ast.Subscript) and "options" in unparse(t.value) for t in nd.targets)]
-    ctx.note(f"R4.4 reason: from_config mutates its argument at {muts[:4]} (and Router.from_config pops keys)")
+    ctx.note(f"{rid} reason: from_config mutates its argument at {muts[:4]} (and Router.from_config pops keys)")
 
 
 def r4_5(ctx: Ctx) -> None:
